@@ -94,14 +94,10 @@ int EvalExpression::run(AsmContext *asm_context, Var &answer, bool is_paren)
       else
     if (token_type == TOKEN_NUMBER)
     {
-      // 0: empty
-      // 1: num
-      // 2:   oper
-      // 3: num
-      // 4:   oper
-      // 5: (num)
+      // count is even when a number is expected and odd when an
+      // operator is expected.
 
-      if (need_symbol(count) || var_stack.size() == 3)
+      if (need_symbol(count))
       {
         print_error_unexp(asm_context, token);
         return -1;
@@ -113,7 +109,7 @@ int EvalExpression::run(AsmContext *asm_context, Var &answer, bool is_paren)
       else
     if (token_type == TOKEN_FLOAT)
     {
-      if (need_symbol(count) || var_stack.size() == 3)
+      if (need_symbol(count))
       {
         print_error_unexp(asm_context, token);
         return -1;
@@ -182,6 +178,15 @@ int EvalExpression::run(AsmContext *asm_context, Var &answer, bool is_paren)
           return -1;
         }
 
+        // Operators already pending that bind at least as tight as this
+        // one (left to right for equal precedence) can be executed now.
+        // What stays pending is strictly looser than what follows it.
+        while (oper_stack.is_empty() == false &&
+               oper_stack.get_last_precedence() <= oper.precedence)
+        {
+          if (execute_stack(var_stack, oper_stack) != 0) { return -1; }
+        }
+
         oper_stack.push(oper);
         count++;
       }
@@ -194,18 +199,6 @@ int EvalExpression::run(AsmContext *asm_context, Var &answer, bool is_paren)
       }
 
       return -1;
-    }
-
-    if (var_stack.size() == 3)
-    {
-      if (oper_stack.size() != 2)
-      {
-        print_error_unexp(asm_context, token);
-        return -1;
-      }
-
-      if (execute_stack(var_stack, oper_stack) != 0) { return  -1; }
-      count -= 2;
     }
   }
 
@@ -227,26 +220,17 @@ int EvalExpression::execute_stack(VarStack &var_stack, OperStack &oper_stack)
   Var d;
   Var s;
 
-  if (oper_stack.get_precedence_index() == 0)
-  {
-    oper = oper_stack.pop_first();
+  // Always the most recent operator: run() only leaves an operator
+  // pending while everything after it binds tighter.
+  if (var_stack.size() < 2) { return -1; }
 
-    d = var_stack.pop_first();
-    s = var_stack.pop_first();
+  oper = oper_stack.pop();
 
-    if (oper.execute(d, s) != 0) { return -1; }
-    var_stack.push_front(d);
-  }
-    else
-  {
-    oper = oper_stack.pop();
+  s = var_stack.pop();
+  d = var_stack.pop();
 
-    s = var_stack.pop();
-    d = var_stack.pop();
-
-    if (oper.execute(d, s) != 0) { return -1; }
-    var_stack.push(d);
-  }
+  if (oper.execute(d, s) != 0) { return -1; }
+  var_stack.push(d);
 
   return 0;
 }
